@@ -264,6 +264,9 @@ def run_sim(argv, files, chooser, capacity=65536, feeder=True, step_cap=K.STEP_C
     sys.stdin = open(stdin_fd, "r", closefd=False)
     sys.stdout = _Stdout(out_buf, encoding="utf-8", write_through=True)
     sys.stderr = _TtyStderr() if env.get("tty") else io.StringIO()
+    import threading
+
+    threads_before = set(threading.enumerate())
     kern = K.Kernel(chooser, capacity=capacity, feeder=feeder, step_cap=step_cap)
     kern.start_method = env.get("start_method", "spawn")
     from . import procimage
@@ -314,8 +317,21 @@ def run_sim(argv, files, chooser, capacity=65536, feeder=True, step_cap=K.STEP_C
             simfs._STDOUT_BUF = None
     except K.HarnessError:
         raise
+    # threads that cutadapt itself started inside a (simulated) process: the interpreter joins every
+    # non-daemon thread before it exits, so one that never ends keeps the real process alive for ever
+    leaked = []
+    for th in threading.enumerate():
+        if th in threads_before or th.daemon or th.name.startswith("sim-"):
+            continue
+        th.join(2.0)
+        if th.is_alive():
+            leaked.append(th.name)
     main = kern.tasks[0]
     res.outcome = kern.outcome
+    if leaked and kern.outcome == "finished":
+        res.outcome = "deadlock"
+        kern.blocked_report = [f"interpreter exit: joining non-daemon thread {n} that never ends" for n in leaked]
+        kern.probe("non_daemon_thread_alive_at_exit", len(leaked))
     res.exit = main.exitcode if kern.outcome == "finished" else None
     res.files = simfs.snapshot()
     res.stdout = out_buf.getvalue().replace(simfs.root().encode() + b"/", simfs.PREFIX.encode())
